@@ -558,14 +558,14 @@ def big_specs(ctx):
     specs = []
     modes = ['setter', 'ctor', 'add']
     k = 0
-    for kind, par0, acyclic in big_shapes(r, ctx.tier == 'thorough'):
+    for si, (kind, par0, acyclic) in enumerate(big_shapes(r, ctx.tier == 'thorough')):
         n = len(par0)
         par0 = [r.sample(ps, len(ps)) for ps in par0]
         orders = [('sources-first', list(range(n))), ('sinks-first', list(range(n - 1, -1, -1))),
                   ('shuffled', r.sample(range(n), n))]
         if ctx.tier != 'thorough':
             # quick: two of the three orders per shape, rotating; sources-first always (parents before children)
-            orders = [orders[0], orders[1 + k % 2]]
+            orders = [orders[0], orders[1 + si % 2]]
         for oname, order in orders:
             specs.append((kind, par0, oname, order, modes[k % 3]))
             k += 1
